@@ -37,9 +37,9 @@ func (c10) Property() string { return "C10" }
 func (c10) Classes() []sim.Class {
 	var cs []sim.Class
 	for _, e := range []string{"interpreter", "compiler"} {
-		q, th := 2500, 120000
+		q, th := 6000, 160000
 		if e == "compiler" {
-			q, th = 800, 40000
+			q, th = 2000, 60000
 		}
 		cs = append(cs,
 			sim.Class{Name: "registry", Engine: e, Quick: q, Thorough: th, Instrumented: true, RunTimeoutSec: 120, DeathIsViolation: true},
@@ -108,6 +108,9 @@ type output struct {
 	// MayFailKnown marks an instantiate that failed with the known
 	// "compiled entry deleted by another handle" error.
 	MayFailKnown bool
+	// OwnFailure marks an instantiate that failed in its start-section function (a reason of its own):
+	// legal whatever the registry holds; it never owned its name.
+	OwnFailure bool
 }
 
 type histOp struct {
@@ -192,8 +195,8 @@ func step(st regState, in input, out output) (bool, regState) {
 			s.open[out.Mod] = true
 			return true, s
 		}
-		if out.MayFailKnown {
-			return true, s // judged outside porcupine against the finding's signature
+		if out.MayFailKnown || out.OwnFailure {
+			return true, s // (known: judged outside porcupine against the finding's signature)
 		}
 		_, taken := s.owner[in.Name]
 		return s.rtClosed || s.rtClosing || (in.Name != "" && taken), s
@@ -425,6 +428,17 @@ var binF = func() []byte {
 	ti := m.AddType(nil, nil)
 	m.Imports = append(m.Imports, wasmb.Import{Module: "xg", Name: "hook", Kind: wasmb.KindFunc, TypeIdx: ti})
 	st := uint32(0)
+	m.Start = &st
+	return m.Encode()
+}()
+
+// binH has a START-SECTION function that calls xh.boom(6), which yields and then fails: the instantiation
+// fails for a reason of its own, after other clients had their turns; it never owned its name.
+var binH = func() []byte {
+	m := &wasmb.Module{}
+	ti := m.AddType([]wasmb.ValType{wasmb.I32}, nil)
+	m.Imports = append(m.Imports, wasmb.Import{Module: "xh", Name: "boom", Kind: wasmb.KindFunc, TypeIdx: ti})
+	st := m.AddFunc(nil, nil, nil, (&wasmb.Code{}).I32Const(6).Call(0).B, "")
 	m.Start = &st
 	return m.Encode()
 }()
@@ -740,7 +754,7 @@ func (c10) Run(t *tape.Tape, cfg sim.Config) (res sim.Result) {
 	}
 	var seq int64
 	transients := map[int]*transient{} // by task id
-	var cmD, cmE, cmF wazero.CompiledModule
+	var cmD, cmE, cmF, cmH wazero.CompiledModule
 	var memAllocs, memFrees atomic.Int64
 	if !withHandles {
 		if _, err := rt.NewHostModuleBuilder("xh").NewFunctionBuilder().WithFunc(func(_ context.Context, mod api.Module, kind uint32) {
@@ -753,13 +767,22 @@ func (c10) Run(t *tape.Tape, cfg sim.Config) (res sim.Result) {
 				panic(sys.NewExitError(3))
 			case 2:
 				panic(sys.NewExitError(0))
-			case 4:
-				// (a start-section function: it returns normally after giving the others a turn)
+			case 6:
+				// (a start-section function that fails after giving the others a turn)
 				if cur := simrt.Current(); cur != nil {
 					delete(transients, cur.ID)
 				}
 				simrt.Yield("host.start-section")
 				simrt.Yield("host.start-section")
+				panic("boom-start-section")
+			case 4:
+				// (a start-section function: it returns normally after giving the others a turn)
+				if cur := simrt.Current(); cur != nil {
+					delete(transients, cur.ID)
+				}
+				for y := 0; y < 6; y++ {
+					simrt.Yield("host.start-section")
+				}
 				return
 			}
 			panic("boom")
@@ -779,6 +802,9 @@ func (c10) Run(t *tape.Tape, cfg sim.Config) (res sim.Result) {
 		if cmF, err = rt.CompileModule(ctx, binF); err != nil {
 			panic(err)
 		}
+		if cmH, err = rt.CompileModule(ctx, binH); err != nil {
+			panic(err)
+		}
 	}
 	names := []string{"", "a", "b"}
 	nclients := t.Range(2, 4)
@@ -796,13 +822,43 @@ func (c10) Run(t *tape.Tape, cfg sim.Config) (res sim.Result) {
 			if k == opInstHost {
 				p.name = tape.Pick(t, []string{"a", "b", "hostm"})
 			}
-			if k == opInst && !withHandles && t.Chance(1, 5) {
-				p.start = 1 + t.Choose(5)
+			if k == opInst && !withHandles && t.Chance(1, 4) {
+				p.start = 1 + t.Choose(6)
 			}
 			if (k == opCompile || k == opCloseCompiled) && !withHandles {
 				p.bin = 2 // a binary nobody instantiates
 			}
 			plans[c] = append(plans[c], p)
+		}
+	}
+	// focus: two clients begin with an instantiation whose start-section function yields, a third with a
+	// runtime close: the start functions overlap, finish in either order, and the close falls before,
+	// between or after
+	if !withHandles && nclients >= 3 && t.Chance(1, 5) {
+		plans[0] = append([]planOp{{kind: opInst, name: tape.Pick(t, names), bin: t.Choose(2), start: 4 + t.Choose(2)}}, plans[0]...)
+		plans[1] = append([]planOp{{kind: opInst, name: tape.Pick(t, names), bin: t.Choose(2), start: 4 + t.Choose(2)}}, plans[1]...)
+		plans[2] = append([]planOp{{kind: opRtClose, code: uint32(t.Choose(4))}}, plans[2]...)
+		res.Stat("probe.focus_two_start_section_instantiations_and_a_runtime_close", 1)
+	}
+	// faults with workload: an instantiation whose start-section function yields is paired with ANOTHER
+	// one (same name or not) in another client, so that start functions overlap and finish in any order
+	for c := range plans {
+		done := false
+		for _, p := range plans[c] {
+			if p.start >= 4 && !withHandles && t.Chance(2, 3) {
+				o := (c + 1 + t.Choose(nclients-1)) % nclients
+				at := t.Choose(len(plans[o]) + 1)
+				q := planOp{kind: opInst, name: p.name, bin: t.Choose(2), start: 4 + t.Choose(3)}
+				if t.Chance(1, 3) {
+					q.name = tape.Pick(t, names)
+				}
+				plans[o] = append(plans[o][:at], append([]planOp{q}, plans[o][at:]...)...)
+				done = true
+				break
+			}
+		}
+		if done {
+			break
 		}
 	}
 	// faults with workload: an instantiation whose start-section function yields is paired with a runtime
@@ -937,7 +993,16 @@ func (c10) Run(t *tape.Tape, cfg sim.Config) (res sim.Result) {
 				}))
 				var mod api.Module
 				var err error
-				if p.start >= 4 {
+				if p.start == 6 {
+					mod, err = rt.InstantiateModule(nctx, cmH, wazero.NewModuleConfig().WithName(p.name))
+					startSections++
+					res.Stat("probe.instantiations_whose_start_section_function_fails_after_yielding", 1)
+					if err == nil {
+						res.Fail("start-failure-result", "client %d: instantiate(%q) whose start-section function panics returned no error", c, p.name)
+					} else if strings.Contains(err.Error(), "boom-start-section") {
+						out.OwnFailure = true
+					}
+				} else if p.start >= 4 {
 					actx := experimental.WithMemoryAllocator(nctx, experimental.MemoryAllocatorFunc(func(cap, max uint64) experimental.LinearMemory {
 						memAllocs.Add(1)
 						return &countingMem{frees: &memFrees}
